@@ -158,8 +158,9 @@ fn run_format(cfg: &Cfg, index: u64, stats: &mut Stats) {
                         // by design (docs/proposals/formatting.md, "Minimal parenthesis formatting") a singleton group is
                         // retained when it is printed over several lines, which narrow widths force: only a variant
                         // whose output has the same lines is judged
-                        let first_differing = other.lines().zip(once.lines()).find(|(a, b)| a != b).map(|(a, _)| a.trim_end().to_string());
-                        let opens_multiline_group = first_differing.as_deref().is_some_and(|l| l.ends_with('('));
+                        // (a group printed over several lines shows as one more line that ends with its opener)
+                        let openers = |t: &str| t.lines().filter(|l| l.trim_end().ends_with('(')).count();
+                        let opens_multiline_group = openers(&other) > openers(&once);
                         if other != once && (other.lines().count() != once.lines().count() || opens_multiline_group) {
                             stats.count("redundant_parentheses_retained_as_multiline_group");
                         } else if other != once {
